@@ -98,6 +98,7 @@ def rule_stub_state(a, m, action=None, control=None, with_state=True):
 
 def jobs(tier):
     out = []
+    TR = traits_of(NAME, {op: OPS[op][0].split('::match<')[0] for op in ('state', 'stated')}, decls=TU_EXTRA)
     for tr in ('eager', 'lazy'):
         for op, (expr, st, mode) in OPS.items():
             for a, m in AM:
@@ -106,7 +107,7 @@ def jobs(tier):
                 P = ('C13',)
                 stubs = []
                 con = Contract(comb_requires(), None)
-                asg = 'IT_FIELDS(in), g_turn, g_pos, g_done, g_iter, g_last, g_called, g_ok, g_len, g_ncalls, vf_exc, vf_exc_counter, g_exc_obj, g_exc_type'
+                asg = 'IT_FIELDS(in), g_turn, g_pos, g_done, g_iter, g_last, g_called, g_ok, g_len, g_ncalls, g_ae, g_re, g_lp, vf_exc, vf_exc_counter, g_exc_obj, g_exc_type'
                 if st:
                     con.add(R('g_s == S_NONE && g_nctor == 0 && g_nsucc == 0 && g_ndtor == 0 && g_os == (const void*)st', 'state-pre'))
                     asg += ', g_s, g_state_addr, g_succ_off, g_nctor, g_nsucc, g_ndtor'
@@ -131,12 +132,14 @@ def jobs(tier):
                            'enaction': dict(A=1, action='tao::pegtl::nothing', control='tao::pegtl::normal'),
                            'disaction': dict(A=0, action='tao::pegtl::nothing', control='tao::pegtl::normal')}[op]
                     stubs.append((r'^bool vf::R<\d+>::match<', rule_stub_state(exp['A'], m, exp['action'], exp['control'], with_state=False)))
+                for c in (c11_premises(TR[op], 1) if op in TR else []):   # state<> is a rule with traits; the change_* classes are action mixins
+                    con.add(c)
                 con.add(E('vf_canary', 'canary_exit'))
                 h = comb_harness('vf_' + INPUT_TYPES[(tr, 'lf_crlf')], tr, 'w_ret = $ENTRY(&in%s)' % (', &os' if st else ''))
                 h = h.replace('vf_exc.pending = 0;', 'vf_exc.pending = 0; vf_exc.obj = 0;' + (' g_s = S_NONE; g_nctor = g_nsucc = g_ndtor = 0; g_os = &os;' if st else ''))
                 if st:
                     h = h.replace('int main(void)\n{', 'int main(void)\n{\n  struct $REC{vf::OS} os;')
-                j = Job(rname(op, a, m, tr), 'state_e' if tr == 'eager' else 'state_l', rname(op, a, m, tr), con, ('C13', 'C02'),
+                j = Job(rname(op, a, m, tr), 'state_e' if tr == 'eager' else 'state_l', rname(op, a, m, tr), con, ('C13', 'C02') + (('C11',) if op in TR else ()),
                         stubs=stubs, prelude=comb_prelude(tr) + PRE, harness=h, expect_fail_canary=('canary_exit',),
                         desc=(expr % (a, m)) + ' on memory_input<%s>' % tr)
                 out.append(j)
